@@ -65,19 +65,6 @@ theorem loopD_cons_ok (c : Ctx σ α ξ β) (i : Nat) (st st' : σ) (d : FoldDat
     loopD c i st (d :: ds) = (tr ++ (loopD c (i + 1) st' ds).1, consOk row (loopD c (i + 1) st' ds).2) := by
   simp only [loopD, h]
 
-/-- what makes one fold sliceable: the C01 guarantees for it -/
-structure FoldOK (n : Int) (fhMin : Int) (f : Fold) : Prop where
-  xrows_range : ∀ p ∈ xRows fhMin f, 0 ≤ p ∧ p < n
-  train_range : ∀ p ∈ f.1, 0 ≤ p ∧ p < n
-  test_range : ∀ q ∈ f.2, 0 ≤ q ∧ q < n
-  train_nonempty : f.1 ≠ []
-  test_nonempty : f.2 ≠ []
-  test_sorted : f.2.Pairwise (· < ·)
-
-theorem FoldsOK.fold {n fhMin fs} (h : FoldsOK n fhMin fs) (f : Fold) (hf : f ∈ fs) : FoldOK n fhMin f :=
-  ⟨h.xrows_range f hf, h.train_range f hf, h.test_range f hf, h.train_nonempty f hf, h.test_nonempty f hf,
-   h.test_sorted f hf⟩
-
 theorem foldStep_eq (c : Ctx σ α ξ β) (fh : List Int) (i : Nat) (st : σ) (f : Fold)
     (hfh : checkFh c.fhRaw = .ok fh) (hy : StrictLabels c.y)
     (hX : ∀ X', c.X = some X' → X'.length = c.y.length)
